@@ -1,8 +1,9 @@
-(* C13 - the round trip of a whole WBS through the model of write_csv / read_csv:
-   read (write w) = normalize w, normalize w is equivalent to w in the sense of the property,
-   a leading U+FEFF changes nothing. *)
+(* C13 - the round trip of a whole WBS through the model of write_csv / read_csv, assembled from the csv codec
+   (CsvCodecProofs.v), the rows (RowsProofs.v) and the forest (AssembleProofs.v): read (write w) = normalize w;
+   a leading U+FEFF changes nothing.  The equivalence of the property is defined here; that normalize w is
+   equivalent to w, in the domain again and a fixed point is proved in RoundTrip.v. *)
 From PJ Require Import Base.Prelude Csv.CsvModel Csv.CsvCodecProofs Csv.Fields Csv.FieldsProofs
-  Csv.Wbs Csv.WbsSpec gen.Consts.
+  Csv.Wbs Csv.WbsSpec Csv.RowsProofs Csv.AssembleProofs gen.Consts.
 Open Scope Z_scope.
 
 (* ---------- list helpers ---------- *)
@@ -33,39 +34,6 @@ Qed.
 
 Lemma filter_all {A} (p : A -> bool) (l : list A) : Forall (fun a => p a = true) l -> filter p l = l.
 Proof. induction 1 as [|a l Ha _ IH]; cbn [filter]; [reflexivity|rewrite Ha, IH; reflexivity]. Qed.
-
-Lemma mem_z_In x l : mem_z x l = true <-> In x l.
-Proof.
-  unfold mem_z. rewrite existsb_exists. split.
-  - intros [y [Hy E]]. apply Z.eqb_eq in E. subst. assumption.
-  - intro H. exists x. split; [assumption|apply Z.eqb_refl].
-Qed.
-
-Lemma dedup_z_nodup : forall l seen, NoDup l -> (forall x, In x l -> ~ In x seen) -> dedup_z seen l = l.
-Proof.
-  induction l as [|x l IH]; intros seen Hn Hd; [reflexivity|].
-  inversion Hn as [|? ? Hx Hn']; subst. cbn [dedup_z].
-  destruct (mem_z x seen) eqn:E.
-  - apply mem_z_In in E. exfalso. apply (Hd x); [left; reflexivity|assumption].
-  - f_equal. apply IH; [assumption|]. intros y Hy [Hy'|Hy']; [subst; contradiction|].
-    apply (Hd y); [right; assumption|assumption].
-Qed.
-
-(* ---------- induction over trees ---------- *)
-Section TreeInd.
-Context {F : Type}.
-Variable P : tree F -> Prop.
-Hypothesis HNode : forall f ps ks, Forall P ks -> P (Node f ps ks).
-Fixpoint tree_ind' (t : tree F) : P t :=
-  match t with
-  | Node f ps ks =>
-      HNode f ps ks ((fix go (l : list (tree F)) : Forall P l :=
-                        match l with
-                        | [] => Forall_nil P
-                        | k :: r => Forall_cons k (tree_ind' k) (go r)
-                        end) ks)
-  end.
-End TreeInd.
 
 (* ---------- the property's equivalence ---------- *)
 Section Equiv.
@@ -100,14 +68,9 @@ Variable f_neg : F -> bool.
 Hypothesis float_roundtrip : forall x, parse_float (repr_float x) = Some x.
 Hypothesis float_nonempty : forall x, repr_float x <> [].
 
-(* TEMPORARY: the two component theorems (Csv/RowsProofs.v, Csv/AssembleProofs.v) *)
-Hypothesis rows_to_raws_to_rows : forall raws : list (raw F),
-  Forall raw_ok raws ->
-  let cols := custom_columns F raws in
-  rows_to_raws F parse_float (csv_default_fields ++ cols) (map (raw_to_row F repr_float cols) raws)
-  = Ok (map (norm_raw cols) raws).
-Hypothesis assemble_flatten_plain : forall w : wbs F,
-  graph_ok f_neg (flatten_plain w) -> assemble F f_neg (flatten_plain w) = Ok w.
+(* the two component theorems: Csv/RowsProofs.v (cells and rows) and Csv/AssembleProofs.v (the forest) *)
+Definition rows_level := rows_to_raws_to_rows repr_float parse_float float_roundtrip float_nonempty.
+Definition forest_level := assemble_flatten_plain f_neg.
 
 (* the domain of the property: every task is expressible in the layout, ids are unique, dependencies
    stay inside the WBS *)
@@ -178,7 +141,7 @@ Lemma norm_tree_map cols : forall (t : tree F) p,
 Proof.
   intro t. induction t as [f ps ks IH] using tree_ind'. intros p H.
   cbn [flat_plain norm_tree map_tree] in *. inversion H as [|? ? Hr Hk]; subst. cbn [r_preds] in Hr.
-  rewrite dedup_z_nodup by (try assumption; intros x _ []). f_equal.
+  rewrite dedup_z_nil_NoDup by assumption. f_equal.
   apply map_ext_Forall. apply Forall_flat_map in Hk.
   rewrite Forall_forall in IH, Hk |- *. intros k Hin. eapply IH; [assumption|apply Hk; assumption].
 Qed.
@@ -206,8 +169,8 @@ Theorem read_rows_to_rows (w : wbs F) : wbs_ok w ->
   read_rows F parse_float f_neg (to_rows F repr_float (flatten F w)) = Ok (normalize F w).
 Proof.
   intros [Hr Hg]. rewrite flatten_is_plain by assumption.
-  unfold to_rows, read_rows. rewrite rows_to_raws_to_rows by assumption. cbn [bind].
-  rewrite map_norm_flatten. rewrite assemble_flatten_plain.
+  unfold to_rows, read_rows. rewrite rows_level by assumption. cbn [bind].
+  rewrite map_norm_flatten. rewrite forest_level.
   - rewrite normalize_map by assumption. reflexivity.
   - rewrite <- map_norm_flatten. apply graph_ok_norm. assumption.
 Qed.
